@@ -166,6 +166,7 @@ impl<'tcx> Runner<'tcx> {
                     let kind = if tn.contains("PrivateKey<") { "sk" } else { "pk" };
                     let prod = job.opts.get(kind).cloned().unwrap_or_else(|| "from_bytes".to_string());
                     let v = self.key_value(kind, &prod, module);
+                    let v = self.tag_key_fields(v, *inner, kind);
                     let p = self.new_input(st, name, v);
                     return Val::Ref(p);
                 }
@@ -195,19 +196,33 @@ impl<'tcx> Runner<'tcx> {
                 if tn.contains("PrivateKey<") || tn.contains("PublicKey<") {
                     let kind = if tn.contains("PrivateKey<") { "sk" } else { "pk" };
                     let prod = job.opts.get(kind).cloned().unwrap_or_else(|| "from_bytes".to_string());
-                    return self.key_value(kind, &prod, module);
+                    let v = self.key_value(kind, &prod, module);
+                    return self.tag_key_fields(v, t, kind);
                 }
                 self.ip.top_of(t, 0)
             }
             ty::Array(et, _) if *et == tcx.types.u8 => {
                 let taint = if job.opts.get(&format!("taint.{}", name)).is_some() { T_RNG } else { 0 };
                 let v = self.ip.top_of(t, 0).taint_all(taint);
-                self.shape_ints(st, job, &key, v)
+                self.shape_ints(st, job, &key, v).with_tag(&format!("in.{}", name))
             }
             _ => {
                 let v = self.ip.top_of(t, 0);
                 self.shape_ints(st, job, &key, v)
             }
+        }
+    }
+
+    /// key structs handed to a consumer: every array field is an exact copy of `<kind>.<field name>`
+    fn tag_key_fields(&self, v: Val, t: ty::Ty<'tcx>, kind: &str) -> Val {
+        let v = v.strip_tags();
+        let names: Vec<String> = match t.kind() {
+            ty::Adt(adt, _) if adt.is_struct() => adt.non_enum_variant().fields.iter().map(|f| f.name.to_string()).collect(),
+            _ => Vec::new(),
+        };
+        match &v {
+            Val::Tuple(fs) if fs.len() == names.len() => Val::Tuple(Rc::new(fs.iter().zip(names.iter()).map(|(f, n)| f.with_tag(&format!("{}.{}", kind, n))).collect())),
+            _ => v,
         }
     }
 
@@ -471,7 +486,11 @@ pub fn val_summary(v: &Val, depth: u32) -> J {
         }
         Val::Arr(a) => {
             let j = a.all_elems_join();
-            jobj! {"arr_len" => J::i(a.len as i128), "elems" => val_summary(&j, depth + 1)}
+            let mut o = jobj! {"arr_len" => J::i(a.len as i128), "elems" => val_summary(&j, depth + 1)};
+            if let Some(t) = &a.tag {
+                o.set("tag", J::s(t.to_string()));
+            }
+            o
         }
         other => J::s(other.short()),
     }
